@@ -439,3 +439,8 @@ MUTANTS += [
     dict(name="revert_fix_periodic_arraylike", prop="C15", file="src/skmatter/metrics/_pairwise.py", count=1,
          old="    X, Y = check_pairwise_arrays(X, Y)\n    _check_dimension(X, cell_length)\n\n    if cell_length is None:", new="    _check_dimension(X, cell_length)\n    X, Y = check_pairwise_arrays(X, Y)\n\n    if cell_length is None:"),
 ]
+
+MUTANTS += [
+    dict(name="revert_fix_pcovcur_warm_stale_refs", prop="C08", file=SEL, count=1,
+         old="        self.X_ref_ = X\n        self.y_ref_ = y\n        for c in self.selected_idx_:", new="        for c in self.selected_idx_:"),
+]
